@@ -8,6 +8,7 @@ faithfulness) and with the Spec's effective constraint (oracle)."""
 import sys, os, re, shutil, subprocess
 sys.path.insert(0, os.path.join(os.path.dirname(os.path.abspath(__file__)), "..", "lib"))
 from vlib import *
+import c09_nest as NS
 
 I63, U64 = 2**63, 2**64
 SMALL = [-1, 0, 1, 2, 3, 5, 9, 10]
@@ -337,6 +338,11 @@ def canon_c(g):
         cols = pr.get(key)
         f.append("%s=%s" % (tag, (cols[col] or "-") if cols else "?"))
     per, oer = g.get("tables", (None, None))
+    if g.get("nest"):
+        # nested-marker region: SIZE column, size row of the PER table, size of the OER table
+        f.append("PERS=%s" % (per.split("/")[1] if per and "/" in per else per))
+        f.append("OERS=%s" % (oer.split(",")[2] if oer and oer.count(",") == 2 else oer))
+        return " ".join(f)
     f.append("PER=%s" % per)
     f.append("OER=%s" % oer)
     return " ".join(f)
@@ -437,6 +443,73 @@ def make_groups(rng, tier):
     return groups
 
 
+def make_nested_groups(rng, tier, start):
+    """the nested-marker region (lib/c09_nest.py): SIZE operands with markers of their own"""
+    groups = []
+    for kind, bare, chain, origin, words in NS.make_nested(rng, tier):
+        name = "N%d" % (start + len(groups))
+        groups.append({"kind": kind, "nest": True, "bare": bare, "name": name, "chain": chain, "origin": origin,
+                       "defs": NS.ngroup_defs(kind, bare, name, chain, words)})
+    return groups
+
+
+NQUIRKS = {"a": "C09-additions-in-root", "c": "C09-chain-marker-kept", "e": "C09-empty-union-operand",
+           "b": "C09-bare-size-marker-lost"}
+NMASKS = sorted(("".join(k for i, k in enumerate("abce") if m >> i & 1) for m in range(1, 16)), key=lambda x: (len(x), x))
+
+
+def nested_oracle(run, g, model_spec):
+    """Spec vs asn1c for one group of the nested-marker region.  The oracle is the Python
+    implementation of the X.680 rules (lib/c09_nest.py:oracle), cross-checked against the Coq
+    Spec (CtNest.nroot / nextc).  Returns None (agree / not claimed), a list of finding ids, or
+    the violation record."""
+    o = NS.oracle(g["chain"], g["bare"])
+    ms = dict(f.split("=", 1) for f in model_spec.split(" "))
+    if (ms["empty"] == "true") != o["empty"] or (not o["empty"] and (ms["vis"] != o["vis"] or ms["PERS"] != o["PER"])):
+        return {"kind": "oracle:python-vs-coq-spec", "what": "the two implementations of the Spec disagree (harness defect)",
+                "python": o["vis"] + " " + o["PER"], "coq": model_spec}
+    c_vis = (g["print"].get("PER-visible") or ["", "", ""])[1] or "-"
+    per, oer = g["tables"]
+    c_row = per.split("/")[1]
+    c_oer = oer.split(",")[2] if oer else None
+
+    def differs(o):
+        d = []
+        if o["empty"]:
+            if not c_vis.endswith(":Empty!"):
+                d.append(("empty", "spec: root is empty", c_vis))
+            return d
+        if c_vis != o["vis"]:
+            d.append(("visible-range", o["vis"], c_vis))
+        if c_row != o["PER"]:
+            d.append(("per-size-row", o["PER"], c_row))
+        if o["OER"] not in ("unclaimed", "empty") and c_oer != o["OER"]:
+            d.append(("oer-size", o["OER"], c_oer))
+        return d
+    run.count("noracle:" + ("empty-root(no claim)" if o["empty"] else "ext" if o["ext"] else "not-ext"))
+    diffs = differs(o)
+    if not diffs:
+        run.count("noracle:agree")
+        return None
+    for m in NMASKS:
+        if "b" in m and not g["bare"]:
+            continue
+        if "c" in m and len([l for l in g["chain"] if l]) < 2:
+            continue
+        if not differs(NS.oracle(g["chain"], g["bare"], m)):
+            return [NQUIRKS[k] for k in m]
+    c_ext = ",...)" in c_vis
+    lb = o["root"][0][0] if o["root"] else 0
+    return {"kind": "oracle:nested-extensibility" if (not o["empty"] and c_ext != o["ext"]) else "oracle:effective-constraint",
+            "what": "the extensibility / range asn1c derives for set arithmetic over SIZE operands with their own markers "
+                    "is not the one X.680 G.4 assigns (union, intersection: any operand; EXCEPT: the first; serial: the last)",
+            "asn1": g["defs"], "command_line": "spec_c09n " + NS.nchain_tok(g["chain"]),
+            "marker_mask": [NS.marker_mask(s[1]) for l in g["chain"] for s in l],
+            "differences": [{"what": d[0], "spec": d[1], "asn1c": d[2]} for d in diffs],
+            "value_encoded_differently": {"size": lb, "spec_layout": o["PER"], "asn1c_layout": c_row},
+            "replay_cmd": "printf 'M DEFINITIONS ::= BEGIN\\n%s\\nEND\\n' > m.asn1 && asn1c -E -F -print-constraints m.asn1" % "\\n".join(g["defs"])}
+
+
 def specs_of(chain):
     return [s for link in chain for s in link]
 
@@ -491,6 +564,7 @@ def main(tier):
         return run.finish("proof", (nthm, ndis))
 
     groups = make_groups(rng, tier)
+    groups += make_nested_groups(rng, tier, len(groups))
     stats = {}
     wd = os.path.join(scratch(), "c09")
     os.makedirs(wd, exist_ok=True)
@@ -504,7 +578,10 @@ def main(tier):
     plines = []
     for g in groups:
         for k in range(1, len(g["chain"]) + 1):
-            plines.append("c09 %s %s" % (g["kind"], chain_tok(g["chain"][:k])))
+            if g.get("nest"):
+                plines.append("c09n %s %d %s" % (g["kind"], 1 if g["bare"] else 0, NS.nchain_tok(g["chain"][:k])))
+            else:
+                plines.append("c09 %s %s" % (g["kind"], chain_tok(g["chain"][:k])))
     rc, pmo, me = run_lines(model, plines)
     if rc != 0 or len(pmo) != len(plines):
         raise RuntimeError("model driver failed: rc=%s %d/%d %s" % (rc, len(pmo), len(plines), me))
@@ -526,6 +603,13 @@ def main(tier):
         run.count("kind:" + g["kind"])
         run.count("outcome:" + (c if c in ("REJECT", "CRASH") else "accepted"))
         g["model"], g["cline"] = m, c
+        if g.get("nest"):
+            run.count("nest-kind:%s%s" % (g["kind"], "-bare" if g["bare"] else ""))
+            for sp in specs_of(g["chain"]):
+                na = NS.n_atoms(sp[1])
+                run.count("nest-shape:atoms=%s,depth=%s" % (na if na < 4 else "4-6" if na < 7 else "7+", min(NS.n_depth(sp[1]), 4)))
+            if c == "CRASH" and mm == "CRASH" and g["bare"] and len([l for l in g["chain"] if l]) > 1:
+                run.known_finding("C09-bare-size-child-assert", g["defs"])
         if mm != c:
             run.count("model_vs_code_diff")
             run.violation("correspondence:Crange(%s)" % g["kind"],
@@ -535,13 +619,24 @@ def main(tier):
         run.sample({"asn1": g["defs"], "asn1c": g["cline"], "model": g["model"]})
 
     # property oracle: Spec (X.680 root + X.691/X.696 effective constraint) vs what asn1c printed / emitted
-    slines = ["spec_c09 %s %s" % (g["kind"], chain_tok(g["chain"])) for g in groups]
+    slines = [("spec_c09n %s" % NS.nchain_tok(g["chain"])) if g.get("nest") else ("spec_c09 %s %s" % (g["kind"], chain_tok(g["chain"])))
+              for g in groups]
     rc, so, me = run_lines(model, slines)
     if rc != 0 or len(so) != len(slines):
         raise RuntimeError("model driver failed on spec queries: rc=%s %s" % (rc, me))
     oracle_bad = set()
     for g, sl in zip(groups, so):
         if "c" in g or not g.get("print") or not isinstance(g.get("tables"), tuple) or g["tables"][0] is None:
+            continue
+        if g.get("nest"):
+            r = nested_oracle(run, g, sl)
+            if isinstance(r, list):
+                for fid in r:
+                    run.count("noracle:" + fid)
+                    run.known_finding(fid, g["defs"])
+            elif r is not None:
+                oracle_bad.add(g["name"])
+                run.violation(r.pop("kind"), r)
             continue
         spec = dict(f.split("=", 1) for f in sl.split(" "))
         col = 0 if g["kind"] == "T" else 1
@@ -582,6 +677,15 @@ def main(tier):
     for v in run.violations:
         if v.pop("_pending", False):
             v["no_failing_input_found"] = not any(nm in " ".join(v.get("asn1", [])) for nm in oracle_bad)
+    # only the first 20 violations are written out: those for which a failing input was found first
+    # and every kind represented (round-robin over the kinds)
+    seen_kind = {}
+    for v in run.violations:
+        v["_rank"] = seen_kind.get(v["kind"], 0)
+        seen_kind[v["kind"]] = v["_rank"] + 1
+    run.violations.sort(key=lambda v: (bool(v.get("no_failing_input_found")), v["_rank"]))
+    for v in run.violations:
+        del v["_rank"]
     tb = ["Coq 8.16.1 kernel + vm_compute (refuted witnesses only)",
           "axioms under Print Assumptions: " + (", ".join(sorted(axioms)) or "none (Closed under the global context)"),
           "extraction: ExtrOcamlBasic only; OCaml 4.13.1; ocaml/drv_c09.ml (tree parser, range printer)",
